@@ -78,6 +78,16 @@ func TestVerifC17DefaultChain(t *testing.T) {
 				q.SetEdns0(1232, false)
 			}
 			raw, _ := q.Pack()
+			// one packet in eight is one the server turns away on its own account - no question, or two - before any
+			// middleware sees it: "no reply" for a denied source covers those replies too
+			malformed := rapid.IntRange(0, 7).Draw(rt, "malformed") == 0
+			if malformed {
+				raw = append([]byte(nil), raw...)
+				raw[5] = byte(rapid.SampledFrom([]int{0, 2}).Draw(rt, "qdcount"))
+				if raw[5] == 0 {
+					raw = raw[:12]
+				}
+			}
 			local, remote := vfAddrs(proto, ip, sc.port)
 			before := stub.Calls()
 			var wrote [][]byte
@@ -92,6 +102,24 @@ func TestVerifC17DefaultChain(t *testing.T) {
 			}
 			allowed, nmatch := vfgen.RefContains(parsed, addr)
 			calls := stub.Calls() - before
+			if malformed {
+				if calls != 0 {
+					rt.Fatalf("list=%q src=%v: a packet without exactly one question reached the upstream (%d calls)", cidrs, ip, calls)
+				}
+				if !allowed && len(wrote) != 0 && !(addr == netip.MustParseAddr("127.0.0.255") && sc.port == 0) {
+					if vfstat.KnownOpen("C17-format-error-reply-before-access-list") {
+						// known finding: the question-count check of the server's shared entry (and the engines' header-level
+						// NOTIMP / FORMERR) answer before the access list has run
+						vfstat.Known(U, "C17-format-error-reply-before-access-list")
+						vfstat.ReportKnown("C17-format-error-reply-before-access-list")
+					} else {
+						rt.Fatalf("list=%q src=%v %s wire=%v: denied, and yet its malformed packet (QDCOUNT %d) was answered (%d replies)", cidrs, ip, proto, wire, raw[5], len(wrote))
+					}
+				}
+				vfstat.Eval(U, 1)
+				vfstat.Class(U, "malformed-packet")
+				continue
+			}
 			if allowed {
 				if len(wrote) != 1 || calls != 1 {
 					rt.Fatalf("list=%q src=%v %s wire=%v: allowed, but replies=%d upstream calls=%d", cidrs, ip, proto, wire, len(wrote), calls)
